@@ -706,31 +706,24 @@ fn decode<'a>(codec: &Codec, sections: &[&'a dyn Data<'a>]) -> BoxedData<'a> {
                     unsafe { std::mem::transmute::<&[u8], &[u8]>(dict_data.cast_ref_u8()) };
                 let string_ranges = section_stack.pop().unwrap();
                 let string_ranges = string_ranges.cast_ref_u64();
+                let indices_section = section_stack.pop().unwrap();
                 let indices: Vec<usize> = match encoding_type {
-                    EncodingType::U8 => section_stack
-                        .pop()
-                        .unwrap()
+                    EncodingType::U8 => indices_section
                         .cast_ref_u8()
                         .iter()
                         .map(|i| *i as usize)
                         .collect(),
-                    EncodingType::U16 => section_stack
-                        .pop()
-                        .unwrap()
+                    EncodingType::U16 => indices_section
                         .cast_ref_u16()
                         .iter()
                         .map(|i| *i as usize)
                         .collect(),
-                    EncodingType::U32 => section_stack
-                        .pop()
-                        .unwrap()
+                    EncodingType::U32 => indices_section
                         .cast_ref_u32()
                         .iter()
                         .map(|i| *i as usize)
                         .collect(),
-                    EncodingType::I64 => section_stack
-                        .pop()
-                        .unwrap()
+                    EncodingType::I64 => indices_section
                         .cast_ref_i64()
                         .iter()
                         .map(|i| *i as usize)
@@ -749,7 +742,8 @@ fn decode<'a>(codec: &Codec, sections: &[&'a dyn Data<'a>]) -> BoxedData<'a> {
                         unsafe { str::from_utf8_unchecked(&dict_data[offset..(offset + len)]) };
                     output.push(string);
                 }
-                Box::new(output) as BoxedData
+                // The index section carries the null map of a nullable string column
+                keep_null_map(&*indices_section, Box::new(output))
             }
             CodecOp::LZ4(encoding_type, count) => match encoding_type {
                 EncodingType::U8 => {
